@@ -129,6 +129,11 @@ func genSites(out string) error {
 					case *ast.CallExpr:
 						if sel, ok := x.Fun.(*ast.SelectorExpr); ok {
 							if pk, ok := sel.X.(*ast.Ident); ok {
+								if sel.Sel.Name == "Go" && imported[pk.Name] == "" { // errgroup-style spawn on any group value
+									ord++
+									sites = append(sites, site{fname, fd.Name.Name, "go", ord})
+									return true
+								}
 								if pk.Obj != nil { // a local identifier, not a package
 									return true
 								}
@@ -142,7 +147,7 @@ func genSites(out string) error {
 								case strings.HasSuffix(imported[pk.Name], "/rand"):
 									ord++
 									sites = append(sites, site{fname, fd.Name.Name, "rand", ord})
-								case sel.Sel.Name == "Go" && (pk.Name == "eg" || pk.Name == "g"):
+								case false:
 									ord++
 									sites = append(sites, site{fname, fd.Name.Name, "go", ord})
 								}
